@@ -17,7 +17,7 @@ RULE = ("one seed -> C01-style script extended with close() (any error code / fr
         "starts (connection state CLOSING/DRAINING observed after an API call) exactly one ConnectionTerminated arrives "
         "no later than start + 3 x PTO (read from the recovery object at that instant) + injected timer lateness; no "
         "datagram is sent after the closing packets; nothing is emitted after the termination event whatever arrives "
-        "later; a silent peer leads to termination within max(idle timeout, 3 PTO) of the last accepted datagram. "
+        "later; a silent peer leads to termination within max(idle timeout, 3 PTO) of the last accepted datagram, and an idle timeout never comes earlier than the smaller non-zero advertised period after the last event a processed packet caused (one side advertises max_idle_timeout = 0 in a quarter of the runs). "
         "non-trivial = a close, crash or fault happened; distinct = hash of fates + ops + configuration")
 ASSUMPTIONS = ASSUMPTIONS_TRANSPORT + [
     "closing start is observed white-box (connection state after each API call), the anchor named by the property",
@@ -30,6 +30,9 @@ PLAN = plan(60, 900, ["close", "close", "crash", "fatal"])
 OPS = {"write": 8, "fin": 2, "reset": 1, "stop": 1, "ping": 1.5, "key_update": 0.7, "change_cid": 0.7, "close": 2.5}
 FAULTS = ("drop", "dup", "delay", "blackout", "timer-late", "clock", "stall")
 IDLE = (4.0, 9.0, 20.0, 60.0)
+# events that only a successfully processed packet of the peer can cause
+RX_EVENTS = ("HandshakeCompleted", "ProtocolNegotiated", "StreamDataReceived", "StreamReset", "StopSendingReceived",
+             "PingAcknowledged", "DatagramFrameReceived")
 
 
 def op_close(sim, ep, target, size, fin):
@@ -53,14 +56,14 @@ def op_close(sim, ep, target, size, fin):
 
 
 PROFILES = {
-    "close": {"faults": FAULTS, "op_weights": OPS, "custom_ops": {"close": op_close}, "idle_timeouts": IDLE,
+    "close": {"faults": FAULTS, "op_weights": OPS, "custom_ops": {"close": op_close}, "idle_timeouts": IDLE, "idle_zero_p": 0.25,
               "poke_after_termination": True, "fair_budget": 150.0, "t_adv_max": 5.0, "accept_any_first": True,
               "allow_vn": True, "allow_no_common_version": True, "blackout_on_accept_p": 0.3},
     "crash": {"faults": FAULTS + ("peer-crash",), "op_weights": dict(OPS, close=0.5),
-              "custom_ops": {"close": op_close}, "idle_timeouts": IDLE, "poke_after_termination": True,
+              "custom_ops": {"close": op_close}, "idle_timeouts": IDLE, "idle_zero_p": 0.25, "poke_after_termination": True,
               "fair_budget": 150.0, "t_adv_max": 5.0, "accept_any_first": True, "blackout_on_accept_p": 0.3},
     "fatal": {"faults": ("drop", "dup", "delay", "timer-late"), "op_weights": dict(OPS, close=0.3),
-              "custom_ops": {"close": op_close}, "idle_timeouts": IDLE, "poke_after_termination": True,
+              "custom_ops": {"close": op_close}, "idle_timeouts": IDLE, "idle_zero_p": 0.25, "poke_after_termination": True,
               "fair_budget": 150.0, "t_adv_max": 5.0, "fatal_frames": True, "accept_any_first": True},
 }
 
@@ -242,9 +245,24 @@ class C09Oracle(Oracle):
         s = self.st[ep.name]
         conn = ep.conn
         idle = ep.config.idle_timeout
-        if getattr(conn, "_remote_max_idle_timeout", None) is not None and ep.peer.config is not None:
+        peer_zero = getattr(ep.peer, "advertises_idle_zero", False)  # 0 = "no idle timeout": only ours counts
+        if getattr(conn, "_remote_max_idle_timeout", None) is not None and ep.peer.config is not None and not peer_zero:
             idle = min(idle, ep.peer.config.idle_timeout)  # the peer's parameters have been processed
         idle = max(idle, 3 * own_pto(conn))
+        # ... and not earlier: the period is at least the smaller of the non-zero advertised values (RFC 9000 10.1).
+        # Events that only a processed packet can cause give a lower bound on the last restart of the idle period.
+        floor = ep.config.idle_timeout
+        if ep.peer.config is not None and not peer_zero:
+            floor = min(floor, ep.peer.config.idle_timeout)
+        if s.get("last_rx_event") is not None:
+            self.n_idle_early_checked = getattr(self, "n_idle_early_checked", 0) + 1
+            if ep.now() - s["last_rx_event"] < floor - 1e-6:
+                raise Violation("c09.idle", "idle-timeout-earlier-than-negotiated" + (":peer-advertised-0" if peer_zero else ""),
+                                "%s: idle timeout reported %.3f s after it processed a packet (event emitted at %.3f); the "
+                                "negotiated idle period is at least %.3f s (own %.1f, peer advertised %s)" % (
+                                    ep.name, ep.now() - s["last_rx_event"], s["last_rx_event"], floor,
+                                    ep.config.idle_timeout,
+                                    "0" if peer_zero else ep.peer.config.idle_timeout if ep.peer.config else "?"))
         acts = [x for x in (s.get("last_rx_local"), s.get("first_tx_after_rx")) if x is not None]
         if not acts:
             return
@@ -267,6 +285,8 @@ class C09Oracle(Oracle):
         if s["terminated_events"] > 0:
             raise Violation("c09.after-termination", "event-after-termination:" + name,
                             "%s emitted %s after ConnectionTerminated" % (ep.name, name))
+        if name in RX_EVENTS:
+            s["last_rx_event"] = ep.now()
         if name == "ConnectionTerminated":
             s["terminated_events"] += 1
             self.n_closed += 1
@@ -329,6 +349,12 @@ def run_one(seed, tier="quick", variant=None, replay=None):
         o = holder["o"]
         s["extra"]["get_timer_values_checked"] = o.n_timer_checked
         s["extra"]["terminations_observed"] = o.n_closed
+        if getattr(o, "n_idle_checked", 0):
+            s["probes"]["idle_timeout_not_later_checked"] = 1
+        if getattr(o, "n_idle_early_checked", 0):
+            s["probes"]["idle_timeout_not_earlier_checked"] = 1
+        if sim.cfg.get("idle_zero_side") is not None:
+            s["probes"]["one_side_advertises_max_idle_timeout_0"] = 1
         for k in o.kinds:
             s["probes"]["closing:" + k] = 1
         s["states"] = sorted(o.kinds)
